@@ -13,9 +13,23 @@ Inductive sspec : Type :=
 | SFv (v : vspec)                                       (* firmware volume image *)
 with fspec : Type :=
 | FOpaque (g : bytes) (ckh ckf t attr state : Z) (body : bytes)   (* incl. pad files *)
+| FOpaqueL (g : bytes) (ckh ckf t attr state : Z) (body : bytes)  (* the same in the FFSv3 large form
+                                                                     (64-bit size): files of 16 MiB and more *)
 | FSecs (g : bytes) (t attr state : Z) (secs : list sspec)
 with vspec : Type :=
-| VSpec (zero g : bytes) (attrs reserved rev count bsize : Z) (files : list fspec) (free : Z).
+| VSpec (zero g : bytes) (attrs reserved rev count bsize : Z)
+        (more : list (Z * Z))                   (* block-map entries after the first one *)
+        (xh : option (bytes * bytes * bytes))   (* extended header: name, extra data, bytes up to the
+                                                   next 8-byte boundary *)
+        (files : list fspec) (free : Z).
+
+Definition xh_eo (hl : Z) (x : option (bytes * bytes * bytes)) : Z :=
+  match x with None => 0 | Some _ => hl end.
+Definition blockb (cs : Z * Z) : bool :=
+  (0 <=? fst cs) && (fst cs <? 2 ^ 32) && (0 <=? snd cs) && (snd cs <? 2 ^ 32) &&
+  negb ((fst cs =? 0) && (snd cs =? 0)).
+Definition xh_bytes (x : option (bytes * bytes * bytes)) : bytes :=
+  match x with None => [] | Some (n, e, gp) => ext_bytes n e gp end.
 
 Fixpoint emit_s (s : sspec) : bytes :=
   match s with
@@ -29,12 +43,14 @@ Fixpoint emit_s (s : sspec) : bytes :=
 with emit_f (f : fspec) : bytes :=
   match f with
   | FOpaque g ckh ckf t attr state body => raw_file_bytes g ckh ckf t attr state body
+  | FOpaqueL g ckh ckf t attr state body => raw_file_bytes_large g ckh ckf t attr state body
   | FSecs g t attr state secs => file_bytes g t attr state (sections_bytes (map emit_s secs))
   end
 with emit_v (v : vspec) : bytes :=
   match v with
-  | VSpec zero g attrs reserved rev count bsize files free =>
-    vol_bytes zero g attrs reserved rev count bsize (map emit_f files) free
+  | VSpec zero g attrs reserved rev count bsize more xh files free =>
+    vol_bytes_x zero g attrs reserved rev count bsize more (xh_eo (fv_hlen more) xh) (xh_bytes xh)
+                (map emit_f files) free
   end.
 
 (* a region: (padding, volume) pairs and trailing padding *)
@@ -45,6 +61,13 @@ Section WF.
 Variable u2s s2u : bytes -> bytes.
 
 Definition in_range (lo x hi : Z) : Prop := lo <= x < hi.
+
+Definition wf_xh (hl : Z) (x : option (bytes * bytes * bytes)) : Prop :=
+  match x with
+  | None => True
+  | Some (n, e, gp) => zlen n = 16 /\ bytes_ok n = true /\ bytes_ok e = true /\ bytes_ok gp = true /\
+                       20 + zlen e < 2 ^ 32 /\ zlen gp < 8 /\ (hl + zlen (ext_bytes n e gp)) mod 8 = 0
+  end.
 
 (* well-formedness: exactly the side conditions of the production rules *)
 Fixpoint wf_s (s : sspec) : Prop :=
@@ -69,6 +92,11 @@ with wf_f (f : fspec) : Prop :=
       in_range 0 t 256 /\ in_range 0 attr 256 /\ in_range 0 state 256 /\ bytes_ok body = true /\
       24 + zlen body < 16777215 /\ (t =? 1) && bytes_eqb g NVAR_GUID = false /\
       (supported_file t = false \/ body = [])
+  | FOpaqueL g ckh ckf t attr state body =>
+      zlen g = 16 /\ bytes_ok g = true /\ in_range 0 ckh 256 /\ in_range 0 ckf 256 /\
+      in_range 0 t 256 /\ in_range 0 attr 256 /\ in_range 0 state 256 /\ bytes_ok body = true /\
+      32 + zlen body < 2 ^ 64 - 1 /\ (t =? 1) && bytes_eqb g NVAR_GUID = false /\
+      (supported_file t = false \/ body = [])
   | FSecs g t attr state secs =>
       zlen g = 16 /\ bytes_ok g = true /\ in_range 0 t 256 /\ in_range 0 attr 256 /\
       in_range 0 state 256 /\ Z.land attr 1 = 0 /\ supported_file t = true /\ secs <> [] /\
@@ -77,14 +105,15 @@ with wf_f (f : fspec) : Prop :=
   end
 with wf_v (v : vspec) : Prop :=
   match v with
-  | VSpec zero g attrs reserved rev count bsize files free =>
+  | VSpec zero g attrs reserved rev count bsize more xh files free =>
       zlen zero = 16 /\ bytes_ok zero = true /\ (g = FFS2 \/ g = FFS3) /\
       in_range 0 attrs (2 ^ 32) /\ Z.land attrs 2048 <> 0 /\
       in_range 0 reserved 256 /\ in_range 0 rev 256 /\
       in_range 0 count (2 ^ 32) /\ in_range 0 bsize (2 ^ 32) /\ (count =? 0) && (bsize =? 0) = false /\
       fold_right and True (map wf_f files) /\
-      files_aligned 72 (map emit_f files) = true /\ 0 <= free /\
-      72 + zlen (flay (map emit_f files)) + free < 2 ^ 64
+      files_aligned (fv_hlen more + zlen (xh_bytes xh)) (map emit_f files) = true /\ 0 <= free /\
+      fv_hlen more + zlen (xh_bytes xh) + zlen (flay (map emit_f files)) + free < 2 ^ 64 /\
+      wf_xh (fv_hlen more) xh /\ forallb blockb more = true /\ fv_hlen more < 65536
   end.
 
 (* a region: every padding 8-aligned and free of scan hits up to the volume's signature, at least
@@ -105,6 +134,14 @@ Section WFB.
 Variable u2s s2u : bytes -> bytes.
 
 Definition rng (lo x hi : Z) : bool := (lo <=? x) && (x <? hi).
+
+Definition wfb_xh (hl : Z) (x : option (bytes * bytes * bytes)) : bool :=
+  match x with
+  | None => true
+  | Some (n, e, gp) => (zlen n =? 16) && bytes_ok n && bytes_ok e && bytes_ok gp &&
+                       (20 + zlen e <? 2 ^ 32) && (zlen gp <? 8) &&
+                       ((hl + zlen (ext_bytes n e gp)) mod 8 =? 0)
+  end.
 
 Fixpoint wfb_s (s : sspec) : bool :=
   match s with
@@ -127,6 +164,11 @@ with wfb_f (f : fspec) : bool :=
       rng 0 state 256 && bytes_ok body && (24 + zlen body <? 16777215) &&
       negb ((t =? 1) && bytes_eqb g NVAR_GUID) &&
       (negb (supported_file t) || (match body with [] => true | _ => false end))
+  | FOpaqueL g ckh ckf t attr state body =>
+      (zlen g =? 16) && bytes_ok g && rng 0 ckh 256 && rng 0 ckf 256 && rng 0 t 256 && rng 0 attr 256 &&
+      rng 0 state 256 && bytes_ok body && (32 + zlen body <? 2 ^ 64 - 1) &&
+      negb ((t =? 1) && bytes_eqb g NVAR_GUID) &&
+      (negb (supported_file t) || (match body with [] => true | _ => false end))
   | FSecs g t attr state secs =>
       (zlen g =? 16) && bytes_ok g && rng 0 t 256 && rng 0 attr 256 && rng 0 state 256 &&
       (Z.land attr 1 =? 0) && supported_file t && (match secs with [] => false | _ => true end) &&
@@ -134,12 +176,14 @@ with wfb_f (f : fspec) : bool :=
   end
 with wfb_v (v : vspec) : bool :=
   match v with
-  | VSpec zero g attrs reserved rev count bsize files free =>
+  | VSpec zero g attrs reserved rev count bsize more xh files free =>
       (zlen zero =? 16) && bytes_ok zero && (bytes_eqb g FFS2 || bytes_eqb g FFS3) &&
       rng 0 attrs (2 ^ 32) && negb (Z.land attrs 2048 =? 0) && rng 0 reserved 256 && rng 0 rev 256 &&
       rng 0 count (2 ^ 32) && rng 0 bsize (2 ^ 32) && negb ((count =? 0) && (bsize =? 0)) &&
-      forallb wfb_f files && files_aligned 72 (map emit_f files) && (0 <=? free) &&
-      (72 + zlen (flay (map emit_f files)) + free <? 2 ^ 64)
+      forallb wfb_f files && files_aligned (fv_hlen more + zlen (xh_bytes xh)) (map emit_f files) &&
+      (0 <=? free) &&
+      (fv_hlen more + zlen (xh_bytes xh) + zlen (flay (map emit_f files)) + free <? 2 ^ 64) &&
+      wfb_xh (fv_hlen more) xh && forallb blockb more && (fv_hlen more <? 65536)
   end.
 
 Definition wfb_region (l : list (bytes * vspec)) (trail : bytes) : bool :=
